@@ -1,27 +1,81 @@
-lib/Bytes.vo lib/Bytes.glob lib/Bytes.v.beautified lib/Bytes.required_vo: lib/Bytes.v 
-lib/Bytes.vio: lib/Bytes.v 
-lib/Bytes.vos lib/Bytes.vok lib/Bytes.required_vos: lib/Bytes.v 
-lib/Utf8.vo lib/Utf8.glob lib/Utf8.v.beautified lib/Utf8.required_vo: lib/Utf8.v lib/Bytes.vo
-lib/Utf8.vio: lib/Utf8.v lib/Bytes.vio
-lib/Utf8.vos lib/Utf8.vok lib/Utf8.required_vos: lib/Utf8.v lib/Bytes.vos
 gen/Facts_HTMLEscape.vo gen/Facts_HTMLEscape.glob gen/Facts_HTMLEscape.v.beautified gen/Facts_HTMLEscape.required_vo: gen/Facts_HTMLEscape.v 
 gen/Facts_HTMLEscape.vio: gen/Facts_HTMLEscape.v 
 gen/Facts_HTMLEscape.vos gen/Facts_HTMLEscape.vok gen/Facts_HTMLEscape.required_vos: gen/Facts_HTMLEscape.v 
 gen/Facts_escapers.vo gen/Facts_escapers.glob gen/Facts_escapers.v.beautified gen/Facts_escapers.required_vo: gen/Facts_escapers.v 
 gen/Facts_escapers.vio: gen/Facts_escapers.v 
 gen/Facts_escapers.vos gen/Facts_escapers.vok gen/Facts_escapers.required_vos: gen/Facts_escapers.v 
+gen/Facts_lexer.vo gen/Facts_lexer.glob gen/Facts_lexer.v.beautified gen/Facts_lexer.required_vo: gen/Facts_lexer.v 
+gen/Facts_lexer.vio: gen/Facts_lexer.v 
+gen/Facts_lexer.vos gen/Facts_lexer.vok gen/Facts_lexer.required_vos: gen/Facts_lexer.v 
+gen/Facts_unicode.vo gen/Facts_unicode.glob gen/Facts_unicode.v.beautified gen/Facts_unicode.required_vo: gen/Facts_unicode.v 
+gen/Facts_unicode.vio: gen/Facts_unicode.v 
+gen/Facts_unicode.vos gen/Facts_unicode.vok gen/Facts_unicode.required_vos: gen/Facts_unicode.v 
+lib/Bytes.vo lib/Bytes.glob lib/Bytes.v.beautified lib/Bytes.required_vo: lib/Bytes.v 
+lib/Bytes.vio: lib/Bytes.v 
+lib/Bytes.vos lib/Bytes.vok lib/Bytes.required_vos: lib/Bytes.v 
+lib/Utf8.vo lib/Utf8.glob lib/Utf8.v.beautified lib/Utf8.required_vo: lib/Utf8.v lib/Bytes.vo
+lib/Utf8.vio: lib/Utf8.v lib/Bytes.vio
+lib/Utf8.vos lib/Utf8.vok lib/Utf8.required_vos: lib/Utf8.v lib/Bytes.vos
+model/CutM.vo model/CutM.glob model/CutM.v.beautified model/CutM.required_vo: model/CutM.v lib/Bytes.vo lib/Utf8.vo gen/Facts_lexer.vo model/LexBase.vo model/LexCodeM.vo model/LexerM.vo model/LexTables.vo
+model/CutM.vio: model/CutM.v lib/Bytes.vio lib/Utf8.vio gen/Facts_lexer.vio model/LexBase.vio model/LexCodeM.vio model/LexerM.vio model/LexTables.vio
+model/CutM.vos model/CutM.vok model/CutM.required_vos: model/CutM.v lib/Bytes.vos lib/Utf8.vos gen/Facts_lexer.vos model/LexBase.vos model/LexCodeM.vos model/LexerM.vos model/LexTables.vos
+model/CutSpec.vo model/CutSpec.glob model/CutSpec.v.beautified model/CutSpec.required_vo: model/CutSpec.v lib/Bytes.vo lib/Utf8.vo gen/Facts_lexer.vo model/LexBase.vo model/LexCodeM.vo model/LexerM.vo model/LexTables.vo model/LexPos.vo model/CutM.vo
+model/CutSpec.vio: model/CutSpec.v lib/Bytes.vio lib/Utf8.vio gen/Facts_lexer.vio model/LexBase.vio model/LexCodeM.vio model/LexerM.vio model/LexTables.vio model/LexPos.vio model/CutM.vio
+model/CutSpec.vos model/CutSpec.vok model/CutSpec.required_vos: model/CutSpec.v lib/Bytes.vos lib/Utf8.vos gen/Facts_lexer.vos model/LexBase.vos model/LexCodeM.vos model/LexerM.vos model/LexTables.vos model/LexPos.vos model/CutM.vos
 model/HTMLEscapeM.vo model/HTMLEscapeM.glob model/HTMLEscapeM.v.beautified model/HTMLEscapeM.required_vo: model/HTMLEscapeM.v lib/Bytes.vo gen/Facts_HTMLEscape.vo
 model/HTMLEscapeM.vio: model/HTMLEscapeM.v lib/Bytes.vio gen/Facts_HTMLEscape.vio
 model/HTMLEscapeM.vos model/HTMLEscapeM.vok model/HTMLEscapeM.required_vos: model/HTMLEscapeM.v lib/Bytes.vos gen/Facts_HTMLEscape.vos
 model/HtmlDecode.vo model/HtmlDecode.glob model/HtmlDecode.v.beautified model/HtmlDecode.required_vo: model/HtmlDecode.v lib/Bytes.vo lib/Utf8.vo
 model/HtmlDecode.vio: model/HtmlDecode.v lib/Bytes.vio lib/Utf8.vio
 model/HtmlDecode.vos model/HtmlDecode.vok model/HtmlDecode.required_vos: model/HtmlDecode.v lib/Bytes.vos lib/Utf8.vos
+model/LexBase.vo model/LexBase.glob model/LexBase.v.beautified model/LexBase.required_vo: model/LexBase.v lib/Bytes.vo lib/Utf8.vo gen/Facts_lexer.vo
+model/LexBase.vio: model/LexBase.v lib/Bytes.vio lib/Utf8.vio gen/Facts_lexer.vio
+model/LexBase.vos model/LexBase.vok model/LexBase.required_vos: model/LexBase.v lib/Bytes.vos lib/Utf8.vos gen/Facts_lexer.vos
+model/LexCodeM.vo model/LexCodeM.glob model/LexCodeM.v.beautified model/LexCodeM.required_vo: model/LexCodeM.v lib/Bytes.vo lib/Utf8.vo gen/Facts_lexer.vo model/LexBase.vo
+model/LexCodeM.vio: model/LexCodeM.v lib/Bytes.vio lib/Utf8.vio gen/Facts_lexer.vio model/LexBase.vio
+model/LexCodeM.vos model/LexCodeM.vok model/LexCodeM.required_vos: model/LexCodeM.v lib/Bytes.vos lib/Utf8.vos gen/Facts_lexer.vos model/LexBase.vos
+model/LexPos.vo model/LexPos.glob model/LexPos.v.beautified model/LexPos.required_vo: model/LexPos.v lib/Bytes.vo lib/Utf8.vo gen/Facts_lexer.vo model/LexBase.vo model/LexCodeM.vo model/LexerM.vo model/LexTables.vo
+model/LexPos.vio: model/LexPos.v lib/Bytes.vio lib/Utf8.vio gen/Facts_lexer.vio model/LexBase.vio model/LexCodeM.vio model/LexerM.vio model/LexTables.vio
+model/LexPos.vos model/LexPos.vok model/LexPos.required_vos: model/LexPos.v lib/Bytes.vos lib/Utf8.vos gen/Facts_lexer.vos model/LexBase.vos model/LexCodeM.vos model/LexerM.vos model/LexTables.vos
+model/LexTables.vo model/LexTables.glob model/LexTables.v.beautified model/LexTables.required_vo: model/LexTables.v lib/Bytes.vo lib/Utf8.vo gen/Facts_lexer.vo gen/Facts_unicode.vo model/LexBase.vo model/LexCodeM.vo model/LexerM.vo
+model/LexTables.vio: model/LexTables.v lib/Bytes.vio lib/Utf8.vio gen/Facts_lexer.vio gen/Facts_unicode.vio model/LexBase.vio model/LexCodeM.vio model/LexerM.vio
+model/LexTables.vos model/LexTables.vok model/LexTables.required_vos: model/LexTables.v lib/Bytes.vos lib/Utf8.vos gen/Facts_lexer.vos gen/Facts_unicode.vos model/LexBase.vos model/LexCodeM.vos model/LexerM.vos
+model/LexerM.vo model/LexerM.glob model/LexerM.v.beautified model/LexerM.required_vo: model/LexerM.v lib/Bytes.vo lib/Utf8.vo gen/Facts_lexer.vo model/LexBase.vo model/LexCodeM.vo
+model/LexerM.vio: model/LexerM.v lib/Bytes.vio lib/Utf8.vio gen/Facts_lexer.vio model/LexBase.vio model/LexCodeM.vio
+model/LexerM.vos model/LexerM.vok model/LexerM.required_vos: model/LexerM.v lib/Bytes.vos lib/Utf8.vos gen/Facts_lexer.vos model/LexBase.vos model/LexCodeM.vos
+proofs/Cut_proofs.vo proofs/Cut_proofs.glob proofs/Cut_proofs.v.beautified proofs/Cut_proofs.required_vo: proofs/Cut_proofs.v lib/Bytes.vo lib/Utf8.vo gen/Facts_lexer.vo model/LexBase.vo model/LexCodeM.vo model/LexerM.vo model/LexTables.vo model/CutM.vo proofs/LexBase_proofs.vo
+proofs/Cut_proofs.vio: proofs/Cut_proofs.v lib/Bytes.vio lib/Utf8.vio gen/Facts_lexer.vio model/LexBase.vio model/LexCodeM.vio model/LexerM.vio model/LexTables.vio model/CutM.vio proofs/LexBase_proofs.vio
+proofs/Cut_proofs.vos proofs/Cut_proofs.vok proofs/Cut_proofs.required_vos: proofs/Cut_proofs.v lib/Bytes.vos lib/Utf8.vos gen/Facts_lexer.vos model/LexBase.vos model/LexCodeM.vos model/LexerM.vos model/LexTables.vos model/CutM.vos proofs/LexBase_proofs.vos
 proofs/HTMLEscape_proofs.vo proofs/HTMLEscape_proofs.glob proofs/HTMLEscape_proofs.v.beautified proofs/HTMLEscape_proofs.required_vo: proofs/HTMLEscape_proofs.v lib/Bytes.vo gen/Facts_HTMLEscape.vo model/HTMLEscapeM.vo lib/Utf8.vo model/HtmlDecode.vo proofs/HtmlDecode_proofs.vo
 proofs/HTMLEscape_proofs.vio: proofs/HTMLEscape_proofs.v lib/Bytes.vio gen/Facts_HTMLEscape.vio model/HTMLEscapeM.vio lib/Utf8.vio model/HtmlDecode.vio proofs/HtmlDecode_proofs.vio
 proofs/HTMLEscape_proofs.vos proofs/HTMLEscape_proofs.vok proofs/HTMLEscape_proofs.required_vos: proofs/HTMLEscape_proofs.v lib/Bytes.vos gen/Facts_HTMLEscape.vos model/HTMLEscapeM.vos lib/Utf8.vos model/HtmlDecode.vos proofs/HtmlDecode_proofs.vos
 proofs/HtmlDecode_proofs.vo proofs/HtmlDecode_proofs.glob proofs/HtmlDecode_proofs.v.beautified proofs/HtmlDecode_proofs.required_vo: proofs/HtmlDecode_proofs.v lib/Bytes.vo lib/Utf8.vo model/HtmlDecode.vo
 proofs/HtmlDecode_proofs.vio: proofs/HtmlDecode_proofs.v lib/Bytes.vio lib/Utf8.vio model/HtmlDecode.vio
 proofs/HtmlDecode_proofs.vos proofs/HtmlDecode_proofs.vok proofs/HtmlDecode_proofs.required_vos: proofs/HtmlDecode_proofs.v lib/Bytes.vos lib/Utf8.vos model/HtmlDecode.vos
+proofs/LexBase_proofs.vo proofs/LexBase_proofs.glob proofs/LexBase_proofs.v.beautified proofs/LexBase_proofs.required_vo: proofs/LexBase_proofs.v lib/Bytes.vo lib/Utf8.vo gen/Facts_lexer.vo model/LexBase.vo
+proofs/LexBase_proofs.vio: proofs/LexBase_proofs.v lib/Bytes.vio lib/Utf8.vio gen/Facts_lexer.vio model/LexBase.vio
+proofs/LexBase_proofs.vos proofs/LexBase_proofs.vok proofs/LexBase_proofs.required_vos: proofs/LexBase_proofs.v lib/Bytes.vos lib/Utf8.vos gen/Facts_lexer.vos model/LexBase.vos
+proofs/LexCode_proofs.vo proofs/LexCode_proofs.glob proofs/LexCode_proofs.v.beautified proofs/LexCode_proofs.required_vo: proofs/LexCode_proofs.v lib/Bytes.vo lib/Utf8.vo gen/Facts_lexer.vo model/LexBase.vo model/LexCodeM.vo proofs/LexBase_proofs.vo proofs/LexTile_proofs.vo
+proofs/LexCode_proofs.vio: proofs/LexCode_proofs.v lib/Bytes.vio lib/Utf8.vio gen/Facts_lexer.vio model/LexBase.vio model/LexCodeM.vio proofs/LexBase_proofs.vio proofs/LexTile_proofs.vio
+proofs/LexCode_proofs.vos proofs/LexCode_proofs.vok proofs/LexCode_proofs.required_vos: proofs/LexCode_proofs.v lib/Bytes.vos lib/Utf8.vos gen/Facts_lexer.vos model/LexBase.vos model/LexCodeM.vos proofs/LexBase_proofs.vos proofs/LexTile_proofs.vos
+proofs/LexTile_proofs.vo proofs/LexTile_proofs.glob proofs/LexTile_proofs.v.beautified proofs/LexTile_proofs.required_vo: proofs/LexTile_proofs.v lib/Bytes.vo lib/Utf8.vo gen/Facts_lexer.vo model/LexBase.vo proofs/LexBase_proofs.vo
+proofs/LexTile_proofs.vio: proofs/LexTile_proofs.v lib/Bytes.vio lib/Utf8.vio gen/Facts_lexer.vio model/LexBase.vio proofs/LexBase_proofs.vio
+proofs/LexTile_proofs.vos proofs/LexTile_proofs.vok proofs/LexTile_proofs.required_vos: proofs/LexTile_proofs.v lib/Bytes.vos lib/Utf8.vos gen/Facts_lexer.vos model/LexBase.vos proofs/LexBase_proofs.vos
+proofs/LexTop_proofs.vo proofs/LexTop_proofs.glob proofs/LexTop_proofs.v.beautified proofs/LexTop_proofs.required_vo: proofs/LexTop_proofs.v lib/Bytes.vo lib/Utf8.vo gen/Facts_lexer.vo model/LexBase.vo model/LexCodeM.vo model/LexerM.vo proofs/LexBase_proofs.vo proofs/LexTile_proofs.vo proofs/LexCode_proofs.vo proofs/Lexer_proofs.vo model/CutSpec.vo
+proofs/LexTop_proofs.vio: proofs/LexTop_proofs.v lib/Bytes.vio lib/Utf8.vio gen/Facts_lexer.vio model/LexBase.vio model/LexCodeM.vio model/LexerM.vio proofs/LexBase_proofs.vio proofs/LexTile_proofs.vio proofs/LexCode_proofs.vio proofs/Lexer_proofs.vio model/CutSpec.vio
+proofs/LexTop_proofs.vos proofs/LexTop_proofs.vok proofs/LexTop_proofs.required_vos: proofs/LexTop_proofs.v lib/Bytes.vos lib/Utf8.vos gen/Facts_lexer.vos model/LexBase.vos model/LexCodeM.vos model/LexerM.vos proofs/LexBase_proofs.vos proofs/LexTile_proofs.vos proofs/LexCode_proofs.vos proofs/Lexer_proofs.vos model/CutSpec.vos
+proofs/Lexer_proofs.vo proofs/Lexer_proofs.glob proofs/Lexer_proofs.v.beautified proofs/Lexer_proofs.required_vo: proofs/Lexer_proofs.v lib/Bytes.vo lib/Utf8.vo gen/Facts_lexer.vo model/LexBase.vo model/LexCodeM.vo model/LexerM.vo proofs/LexBase_proofs.vo proofs/LexTile_proofs.vo proofs/LexCode_proofs.vo
+proofs/Lexer_proofs.vio: proofs/Lexer_proofs.v lib/Bytes.vio lib/Utf8.vio gen/Facts_lexer.vio model/LexBase.vio model/LexCodeM.vio model/LexerM.vio proofs/LexBase_proofs.vio proofs/LexTile_proofs.vio proofs/LexCode_proofs.vio
+proofs/Lexer_proofs.vos proofs/Lexer_proofs.vok proofs/Lexer_proofs.required_vos: proofs/Lexer_proofs.v lib/Bytes.vos lib/Utf8.vos gen/Facts_lexer.vos model/LexBase.vos model/LexCodeM.vos model/LexerM.vos proofs/LexBase_proofs.vos proofs/LexTile_proofs.vos proofs/LexCode_proofs.vos
+props/C04.vo props/C04.glob props/C04.v.beautified props/C04.required_vo: props/C04.v lib/Bytes.vo gen/Facts_lexer.vo gen/Facts_unicode.vo model/LexBase.vo model/LexCodeM.vo model/LexerM.vo model/LexTables.vo proofs/LexBase_proofs.vo proofs/LexTile_proofs.vo proofs/LexCode_proofs.vo proofs/Lexer_proofs.vo proofs/LexTop_proofs.vo
+props/C04.vio: props/C04.v lib/Bytes.vio gen/Facts_lexer.vio gen/Facts_unicode.vio model/LexBase.vio model/LexCodeM.vio model/LexerM.vio model/LexTables.vio proofs/LexBase_proofs.vio proofs/LexTile_proofs.vio proofs/LexCode_proofs.vio proofs/Lexer_proofs.vio proofs/LexTop_proofs.vio
+props/C04.vos props/C04.vok props/C04.required_vos: props/C04.v lib/Bytes.vos gen/Facts_lexer.vos gen/Facts_unicode.vos model/LexBase.vos model/LexCodeM.vos model/LexerM.vos model/LexTables.vos proofs/LexBase_proofs.vos proofs/LexTile_proofs.vos proofs/LexCode_proofs.vos proofs/Lexer_proofs.vos proofs/LexTop_proofs.vos
+props/C15.vo props/C15.glob props/C15.v.beautified props/C15.required_vo: props/C15.v lib/Bytes.vo gen/Facts_lexer.vo gen/Facts_unicode.vo model/LexBase.vo model/LexCodeM.vo model/LexerM.vo model/LexTables.vo model/LexPos.vo model/CutM.vo model/CutSpec.vo proofs/LexBase_proofs.vo proofs/LexTile_proofs.vo proofs/LexCode_proofs.vo proofs/Lexer_proofs.vo proofs/LexTop_proofs.vo proofs/Cut_proofs.vo
+props/C15.vio: props/C15.v lib/Bytes.vio gen/Facts_lexer.vio gen/Facts_unicode.vio model/LexBase.vio model/LexCodeM.vio model/LexerM.vio model/LexTables.vio model/LexPos.vio model/CutM.vio model/CutSpec.vio proofs/LexBase_proofs.vio proofs/LexTile_proofs.vio proofs/LexCode_proofs.vio proofs/Lexer_proofs.vio proofs/LexTop_proofs.vio proofs/Cut_proofs.vio
+props/C15.vos props/C15.vok props/C15.required_vos: props/C15.v lib/Bytes.vos gen/Facts_lexer.vos gen/Facts_unicode.vos model/LexBase.vos model/LexCodeM.vos model/LexerM.vos model/LexTables.vos model/LexPos.vos model/CutM.vos model/CutSpec.vos proofs/LexBase_proofs.vos proofs/LexTile_proofs.vos proofs/LexCode_proofs.vos proofs/Lexer_proofs.vos proofs/LexTop_proofs.vos proofs/Cut_proofs.vos
+props/C21.vo props/C21.glob props/C21.v.beautified props/C21.required_vo: props/C21.v lib/Bytes.vo gen/Facts_lexer.vo gen/Facts_unicode.vo model/LexBase.vo model/LexCodeM.vo model/LexerM.vo model/LexTables.vo model/LexPos.vo proofs/LexBase_proofs.vo proofs/LexCode_proofs.vo proofs/Lexer_proofs.vo proofs/LexTop_proofs.vo
+props/C21.vio: props/C21.v lib/Bytes.vio gen/Facts_lexer.vio gen/Facts_unicode.vio model/LexBase.vio model/LexCodeM.vio model/LexerM.vio model/LexTables.vio model/LexPos.vio proofs/LexBase_proofs.vio proofs/LexCode_proofs.vio proofs/Lexer_proofs.vio proofs/LexTop_proofs.vio
+props/C21.vos props/C21.vok props/C21.required_vos: props/C21.v lib/Bytes.vos gen/Facts_lexer.vos gen/Facts_unicode.vos model/LexBase.vos model/LexCodeM.vos model/LexerM.vos model/LexTables.vos model/LexPos.vos proofs/LexBase_proofs.vos proofs/LexCode_proofs.vos proofs/Lexer_proofs.vos proofs/LexTop_proofs.vos
 props/C24.vo props/C24.glob props/C24.v.beautified props/C24.required_vo: props/C24.v lib/Bytes.vo gen/Facts_HTMLEscape.vo model/HTMLEscapeM.vo model/HtmlDecode.vo proofs/HTMLEscape_proofs.vo
 props/C24.vio: props/C24.v lib/Bytes.vio gen/Facts_HTMLEscape.vio model/HTMLEscapeM.vio model/HtmlDecode.vio proofs/HTMLEscape_proofs.vio
 props/C24.vos props/C24.vok props/C24.required_vos: props/C24.v lib/Bytes.vos gen/Facts_HTMLEscape.vos model/HTMLEscapeM.vos model/HtmlDecode.vos proofs/HTMLEscape_proofs.vos
